@@ -167,6 +167,55 @@ ApRecreate(st, a) ==
      EXCEPT !.capc = CapC(a.v, a.n, -1)]
 
 ---------------------------------------------------------------------------
+(* clone family (C08) and lazy clones (C09).  `fr` supplies the identities of the clones in the order the contract *)
+(* lists them (exploration: fresh numbers; validation: taken from the clone callbacks of the event).              *)
+
+(* a.v.clone() replaces the vector in slot a.to (whose old contents are destroyed) *)
+ApCloneVec(st, a, fr) ==
+  LET V == st.v[a.v]  W == st.v[a.to]
+      cl == [i \in 1..Len(V.el) |-> <<fr[i], V.el[i][2]>>] IN
+  IF Cfg.fixed /\ Len(V.el) > W.cap THEN OutL(st, "panic", <<>>, <<>>, "panic")
+  ELSE [Out(SetV(st, a.to, [W EXCEPT !.el = cl, !.cap = IF Cfg.trackcap THEN Len(cl) ELSE @]), "ok", <<>>, Ids(W.el))
+          EXCEPT !.clones = Ids(V.el), !.capc = CapC(a.to, Len(cl), -1)]
+
+(* the source value of a lazy clone: an element reference, the value held by a removal handle, a kept drained item *)
+LazySrc(st, a) ==
+  LET V == st.v[a.v] IN
+  CASE a.kind = "elem"   -> V.el[a.i + 1]
+    [] a.kind = "handle" -> V.h.held
+    [] a.kind = "item"   -> V.h.out[a.i + 1]
+
+(* a lazy clone chain of depth a.depth is created from the source, copied and consumed a.n times into a.sink, then  *)
+(* dropped.  Creating, copying and dropping clone nothing; each consumption clones the ROOT source exactly once.     *)
+ApLazy(st, a, fr) ==
+  LET x == LazySrc(st, a)
+      news == [j \in 1..a.n |-> <<fr[j], x[2]>>]
+      W == st.v[a.sink.to]
+      srcs == [j \in 1..a.n |-> x[1]]
+      grown == IF a.sink.k = "ext" THEN 0 ELSE IF a.sink.k = "splice" THEN Len(W.el) - (a.sink.e - a.sink.s) + a.n ELSE Len(W.el) + a.n
+  IN
+  IF a.n = 0 /\ a.sink.k # "splice" THEN Out(st, "ok", <<>>, <<>>)    \* created, copied, dropped: nothing may happen
+  ELSE IF a.sink.k = "ext"
+  THEN [Out([st EXCEPT !.ext = @ \o news], "ok", news, <<>>) EXCEPT !.clones = srcs]
+  ELSE IF Cfg.fixed /\ grown > W.cap THEN OutL(st, "panic", <<>>, <<>>, "panic")
+  ELSE CASE a.sink.k = "push" ->
+              [Out(SetV(st, a.sink.to, [W EXCEPT !.el = @ \o news, !.cap = GrowCap(@, Len(W.el) + a.n)]), "ok", <<>>, <<>>)
+                 EXCEPT !.clones = srcs]
+         [] a.sink.k = "insert" ->
+              IF a.sink.i > Len(W.el) /\ a.n > 0 THEN Out(st, "panic", <<>>, <<>>)      \* rejected before any clone is made
+              ELSE [Out(SetV(st, a.sink.to, [W EXCEPT !.el = SubSeq(@, 1, a.sink.i) \o Rev(news) \o SubSeq(@, a.sink.i + 1, Len(@)),
+                                                      !.cap = GrowCap(@, Len(W.el) + a.n)]), "ok", <<>>, <<>>)
+                      EXCEPT !.clones = srcs]
+         [] a.sink.k = "splice" ->
+              [Out(SetV(st, a.sink.to, [W EXCEPT !.el = VSplice(@, a.sink.s, a.sink.e, news), !.cap = GrowCap(@, grown)]),
+                   "ok", <<>>, Ids(SubSeq(W.el, a.sink.s + 1, a.sink.e)))
+                 EXCEPT !.clones = srcs]
+
+(* clone_empty / clone_empty_in(backend) probe: the empty twin accepts a fresh value and (if cloneable) a lazy clone *)
+(* of the source's first element, is itself cloned and everything created is destroyed again; the source is unchanged *)
+ApCeProbe(st, a) == Out(st, "ok", <<>>, <<>>)
+
+---------------------------------------------------------------------------
 (* drain / splice *)
 
 Rng(op, s, e, pre, repl, owned, path) ==
@@ -279,6 +328,9 @@ Apply(st, a, fr) ==
     [] a.op \in {"reserve", "reserve_exact"} -> ApReserve(st, a)
     [] a.op \in {"shrink_to_fit", "shrink_to"} -> ApShrink(st, a)
     [] a.op = "recreate"           -> ApRecreate(st, a)
+    [] a.op = "clone_vec"          -> ApCloneVec(st, a, fr)
+    [] a.op = "lazy"               -> ApLazy(st, a, fr)
+    [] a.op = "ce_probe"           -> ApCeProbe(st, a)
 
 (* Is the action applicable at all (borrow discipline; which handle must be present)?  A trace event  *)
 (* that is not applicable is a tool error of the driver, not a verdict about the implementation.      *)
@@ -294,6 +346,14 @@ Applicable(st, a) ==
        [] a.op \in {"iter_next", "iter_clone"} -> hk = "iter" /\ a.k \in 1..Len(st.v[a.v].h.its)
        [] a.op = "iter_end" -> hk = "iter"
        [] a.op = "ext_drop" -> st.ext # <<>>
+       [] a.op = "clone_vec" -> hk = "none" /\ a.to \in Vecs /\ a.to # a.v /\ Quiet(st, a.to)
+       [] a.op = "ce_probe" -> hk = "none"
+       [] a.op = "lazy" ->
+            /\ CASE a.kind = "elem" -> hk = "none" /\ a.i < Len(st.v[a.v].el)
+                 [] a.kind = "handle" -> hk = "tmp"
+                 [] a.kind = "item" -> hk \in {"range", "items"} /\ a.i < Len(st.v[a.v].h.out)
+            /\ (a.sink.k = "ext" \/ (a.sink.to \in Vecs /\ a.sink.to # a.v /\ Quiet(st, a.sink.to)))
+            /\ (a.sink.k = "splice" => a.sink.s <= a.sink.e /\ a.sink.e <= Len(st.v[a.sink.to].el))
        [] OTHER -> FALSE
 
 ---------------------------------------------------------------------------
